@@ -16,26 +16,33 @@
 (*   SliceLaw       both slicing code paths equal the matrix product for   *)
 (*                  partial injections                                     *)
 (*   ImplIsRef      the mechanism model returns the reference value in     *)
-(*                  every program that never attaches a pending operand to *)
-(*                  an object that already carries one (`over`); with      *)
+(*                  every Apply of a name whose expression never attached  *)
+(*                  a pending operand to an object that already carried    *)
+(*                  one (`taint`, the single-slot limitation); with        *)
 (*                  CopyOnMatmul = FALSE (pre-fix code) it is violated by  *)
 (*                  a reuse program, which shows that the enumerated       *)
 (*                  family can tell the two apart.                         *)
 (***************************************************************************)
 EXTENDS SlicerRef, TLC, Json
 
-CONSTANTS Scenarios,    \* set of sequences of [s, mode]: the initial `new` statements
-          MaxStmts,     \* statements after the scenario
-          ScalarOps,    \* pending operations offered with a scalar left operand
-          SparseOps,    \* pending operations offered with a sparse left operand (fmt says which scipy class)
-          ScalarFmts,   \* Python types of scalar operands: "int" "float" "np"
-          KindsFinal,   \* operand kinds of the last Apply
-          KindsMid,     \* operand kinds of Applies before the last statement ({} = a program ends at its first Apply)
-          AllowT, AllowMM,
-          CopyOnMatmul
+CONSTANTS Configs,      \* sequence of enumeration configurations (records, see below); a behaviour picks one
+          Scen,         \* Scen[c] = the scenarios of Configs[c]: set of sequences of [s, mode], the initial `new` statements
+          CopyOnMatmul  \* mechanism switch: TRUE = the code as it is
 
-VARIABLES prog, rs
-svars == <<prog, rs>>
+\* a configuration:
+\*   name         label printed with every emitted program
+\*   MaxStmts     statements after the scenario
+\*   ScalarOps    pending operations offered with a scalar left operand
+\*   SparseOps    set of <<op, fmt>>: pending operations offered with a sparse left operand (fmt = scipy class)
+\*   ScalarFmts   Python types of scalar operands: "int" "float" "np"
+\*   SparseFmts   formats of sparse operands of Apply: "csr" "csc" "coo"
+\*   KindsFinal   operand kinds of the last Apply
+\*   KindsMid     operand kinds of Applies before the last statement ({} = a program ends at its first Apply)
+\*   AllowT, AllowMM
+\*   AllowOver    generate statements that attach a pending operand to an object that already has one
+VARIABLES cfi, prog, rs, left     \* left = statements still allowed
+svars == <<cfi, prog, rs, left>>
+Cf == Configs[cfi]
 
 (* ------------------------------ operands --------------------------------- *)
 YVec(n) == Val("vec", [i \in 1..n |-> <<i>>], <<>>, "")
@@ -47,9 +54,9 @@ YSc(fmt) == Val("sc", <<<<3>>>>, <<>>, fmt)
 Operands(kind, n) ==
   CASE kind = "vec" -> {YVec(n)}
     [] kind = "mat" -> {YMat(n)}
-    [] kind = "sp"  -> {YSp(n, f) : f \in {"csr", "csc", "coo"}}
+    [] kind = "sp"  -> {YSp(n, f) : f \in Cf.SparseFmts}
     [] kind = "ad"  -> {YAd(n)}
-    [] kind = "sc"  -> {YSc(f) : f \in ScalarFmts}
+    [] kind = "sc"  -> {YSc(f) : f \in Cf.ScalarFmts}
 XScalar(op, fmt) == Val("sc", <<<<IF op = "/" THEN 12 ELSE 2>>>>, <<>>, fmt)
 XSparse(m, fmt) == Val("sp", [r \in 1..2 |-> [c \in 1..m |-> IF (r + c) % 2 = 0 THEN r + c ELSE 0]], <<>>, fmt)
 
@@ -57,42 +64,45 @@ XSparse(m, fmt) == Val("sp", [r \in 1..2 |-> [c \in 1..m |-> IF (r + c) % 2 = 0 
 NNames == Len(rs.addr)
 Plain(i) == Len(rs.den[i]) = 1                       \* a constructed or transposed slicer, nothing pending
 Last == prog[Len(prog)]
-NInit == Cardinality({k \in 1..Len(prog) : prog[k].st = "new"})
-Remaining == MaxStmts - (Len(prog) - NInit)
-Ended == Remaining = 0 \/ (KindsMid = {} /\ Last.st = "app")
+Remaining == left
+Ended == Remaining = 0 \/ (Cf.KindsMid = {} /\ Last.st = "app")
 
-Candidates ==
-     (IF AllowT THEN {ST(i) : i \in {k \in 1..NNames : Plain(k)}} ELSE {})
-  \cup (IF AllowMM THEN {SMM(i, j) : i \in 1..NNames, j \in 1..NNames} ELSE {})
-  \cup {SROp(op, XScalar(op, f), i) : op \in ScalarOps, f \in ScalarFmts, i \in 1..NNames}
-  \cup {SROp(pf[1], XSparse(OutRows(rs.den[i]), pf[2]), i) : pf \in SparseOps, i \in 1..NNames}
-  \cup UNION {{SApp(i, y) : y \in Operands(k, InRows(rs.den[i]))}
-              : k \in (IF Remaining = 1 THEN KindsFinal ELSE KindsMid), i \in 1..NNames}
+\* statements inside the family of the property (sizes fit, the reference value is defined)
+Admissible(q, n) ==
+  CASE q.st = "T"   -> Plain(q.i)
+    [] q.st = "mm"  -> OutRows(rs.den[q.j]) = InRows(rs.den[q.i]) /\ (Cf.AllowOver \/ ~HasPending(rs, q.j))
+    [] q.st = "rop" -> Cf.AllowOver \/ ~HasPending(rs, q.i)
+    [] q.st = "app" -> n.outR[Len(n.outR)].kind # "undef"
+    [] OTHER -> FALSE
 
-Admissible(q) ==
-  CASE q.st = "mm"  -> OutRows(rs.den[q.j]) = InRows(rs.den[q.i])
-    [] q.st = "app" -> RefEval(rs.den[q.i], q.v).kind # "undef"
-    [] OTHER -> TRUE
+Do(q) == LET n == Step(rs, q, CopyOnMatmul) IN
+         /\ Admissible(q, n)
+         /\ cfi' = cfi /\ left' = left - 1
+         /\ prog' = Append(prog, q)
+         /\ rs' = n
 
-Init == \E sc \in Scenarios :
+Init == \E c \in 1..Len(Configs) : \E sc \in Scen[c] :
+          /\ cfi = c /\ left = Configs[c].MaxStmts
           /\ prog = [k \in 1..Len(sc) |-> SNew(sc[k].s, sc[k].mode)]
           /\ rs = Run([k \in 1..Len(sc) |-> SNew(sc[k].s, sc[k].mode)], CopyOnMatmul)
+\* the last statement of a program is an Apply
 Next == /\ ~Ended
-        /\ \E q \in Candidates :
-               /\ Admissible(q)
-               \* the last statement of a program is an Apply
-               /\ Remaining = 1 => q.st = "app"
-               /\ prog' = Append(prog, q)
-               /\ rs' = Step(rs, q, CopyOnMatmul)
+        /\ \/ /\ Remaining > 1
+              /\ \/ Cf.AllowT /\ \E i \in 1..NNames : Do(ST(i))
+                 \/ Cf.AllowMM /\ \E i, j \in 1..NNames : Do(SMM(i, j))
+                 \/ \E op \in Cf.ScalarOps, f \in Cf.ScalarFmts, i \in 1..NNames : Do(SROp(op, XScalar(op, f), i))
+                 \/ \E pf \in Cf.SparseOps, i \in 1..NNames : Do(SROp(pf[1], XSparse(OutRows(rs.den[i]), pf[2]), i))
+           \/ \E k \in (IF Remaining = 1 THEN Cf.KindsFinal ELSE Cf.KindsMid), i \in 1..NNames :
+                \E y \in Operands(k, InRows(rs.den[i])) : Do(SApp(i, y))
 Spec == Init /\ [][Next]_svars
 
 Terminal == Last.st = "app" /\ Ended
-Emit == Terminal => PrintT(ToJson([prog |-> prog]))
+Emit == Terminal => PrintT(ToJson([cfg |-> Cf.name, prog |-> PackProg(prog)]))
 
 (* ------------------------------ model laws ------------------------------- *)
-ImplIsRef == \A k \in 1..Len(rs.outR) : rs.over \/ rs.outI[k] = rs.outR[k]
+ImplIsRef == \A k \in 1..Len(rs.outR) : rs.outT[k] \/ rs.outI[k] = rs.outR[k]
 RefDefined == \A k \in 1..Len(rs.outR) : rs.outR[k].kind # "undef"
-SliceLaw == \A a \in 1..Len(rs.heap) :
+SliceLaw == left = Cf.MaxStmts => \A a \in 1..Len(rs.heap) :
               LET o == rs.heap[a]
                   M == [i \in 1..o.s.ds |-> <<i, 7 * i>>]
               IN IsSlicer(o.s) /\ SliceRows(o.s, o.onto, M) = MatMul(ProjMat(o.s), M)
